@@ -117,6 +117,17 @@ CHECKS = {
               "the NONE twin's (cosine), zero direction gives zero update."),
         note="Trusted: NumPy closed forms of SGD/AdaGrad/RMSProp/normalised/sign steps; optax.adafactor for ADAFACTOR; the NONE twin shares statistics and preconditioners.",
         design="DESIGN.md section 3, C05"),
+    "C02": dict(
+        category="exploration",
+        technique="property-based one-step conformance testing along generated histories against an independent float64 NumPy reference model of blocked Shampoo (written from the docs), plus an end-to-end float64 reference run",
+        text=("Generated-input search over option records (graft, betas, nesterov, momentum form, weight decay/lr coupling and schedule, "
+              "blocks, merging, preconditioner type, exponent override, start step, intervals, skip rules, Newton/eigh, ridge) x trees x "
+              "histories, replicated and sharded (~350 configurations / 3e3 steps quick): count, statistics, preconditioners (against "
+              "(S+dI)^(-1/e) with the ridge reconstructed from the reported metrics), graft accumulators, both momenta and the update are "
+              "compared leaf by leaf with a reference step applied to the implementation's previous state, with float32 cancellation "
+              "bounds computed per case; well-conditioned configurations are also compared end to end."),
+        note="Trusted: vp/ref/ds_step.py (float64, no import of the repo). Tolerances stated in evidence.assumptions; steps whose grafting norm under/overflows float32 and roots without a positive-definite reference are counted and skipped.",
+        design="DESIGN.md section 3, C02"),
 }
 
 NOT_YET = {}
